@@ -21,6 +21,7 @@ import PV.Model.Gevp
 import PV.Model.Names
 import PV.Model.Gls
 import PV.Model.Tree
+import PV.Model.Text
 
 open Lean PV PV.Wire
 
@@ -482,6 +483,17 @@ def opTree (j : Json) : Except String Json := do
     | .error e => pure (obj [("exc", .str (treeErr e))])
   | _ => throw s!"unknown tree request {what}"
 
+/-- op "textblock": {"text": str, "start": n, "T": n} -> {"lines": [str]} | {"exc": "eof"}: `readlines()` and the block
+    test of the sfcf separate / appended layouts -/
+def opTextBlock (j : Json) : Except String Json := do
+  let text : String ← get j "text"
+  let start : Nat ← get j "start"
+  let T : Nat ← get j "T"
+  let lines := Text.readlines text.toList
+  match Text.readBlock lines start T with
+  | none => pure (obj [("exc", .str "eof"), ("nlines", enc lines.length)])
+  | some blk => pure (obj [("lines", enc (blk.map String.ofList)), ("nlines", enc lines.length)])
+
 def dispatch (op : String) (j : Json) : Except String Json :=
   match op with
   | "gamma" => opGamma false j
@@ -502,6 +514,7 @@ def dispatch (op : String) (j : Json) : Except String Json :=
   | "gls" => opGls j
   | "ift" => opIft j
   | "tree" => opTree j
+  | "textblock" => opTextBlock j
   | "sortnames" => opSortNames j
   | "select" => opSelect j
   | "jsonrep" => opJsonRep j
